@@ -307,12 +307,32 @@ def _chol_res(A):
     return L
 
 
+def _kind(x):
+    return type(x).__name__.split("[")[0]
+
+
+def structure_kept(A, r):
+    """C11: 'the returned factors keep the structure of the input (factor-wise for Kronecker and block-diagonal) rather than
+    being dense' - a kind postcondition, checked on the concrete class of the result"""
+    k = _kind(A)
+    if k == "Kronecker":
+        return _kind(r) == "Kronecker" and len(r.Ms) == len(A.Ms)
+    if k == "BlockDiag":
+        return _kind(r) == "BlockDiag" and len(r.Ms) == len(A.Ms) and list(r.multiplicities) == list(A.multiplicities)
+    if k == "Identity":
+        return _kind(r) == "Identity"
+    if k in ("Diagonal", "ScalarMul"):
+        return _kind(r) not in ("Dense", "Triangular")
+    return True
+
+
 cholesky = Contract(
     "cholesky",
     requires=lambda A: [("square", square(A)), ("positive definite", z3.And(alg.psd(M(A)), alg.invok(M(A))))],
     result=_chol_res,
     ensures=lambda A, r: [("L lower triangular", alg.tril(M(r))), ("L L^H = M(A)", alg.mmul(M(r), alg.cj(alg.tr(M(r)))) == M(A)),
-                          ("shape", shape_is(r, A.shape[0], A.shape[1]))],
+                          ("shape", shape_is(r, A.shape[0], A.shape[1])),
+                          ("structure kept (factor-wise, not dense)", structure_kept(A, r))],
     props=("C11",))
 
 
@@ -333,7 +353,8 @@ def _plu_res(A):
 def _plu_ens(A, r):
     P, L, U = r
     return [("P permutation", alg.isperm(M(P))), ("L lower triangular", alg.tril(M(L))), ("U upper triangular", alg.triu(M(U))),
-            ("P L U = M(A)", alg.mmul(M(P), alg.mmul(M(L), M(U))) == M(A))]
+            ("P L U = M(A)", alg.mmul(M(P), alg.mmul(M(L), M(U))) == M(A)),
+            ("structure kept (factor-wise, not dense)", all(structure_kept(A, x) for x in (P, L, U)))]
 
 
 plu = Contract(
